@@ -44,6 +44,10 @@ fn text_for(construct: &str, depth: usize) -> String {
         "skipmap" => format!("{{a: missing, b: {}i1{}}}", "[".repeat(depth), "]".repeat(depth)),
         "skipcallarg" => format!("nofn([missing, {}true])", "!".repeat(depth)),
         "escapes" => format!("\"{}\"", "\\\\\\t\\\"".repeat(depth)),
+        // deep values in a metadata item of a rule text (constants, and a non-constant that is rejected)
+        "metalist" => format!("// n\n@k: {}i1{};\na", "[".repeat(depth), "]".repeat(depth)),
+        "metamap" => format!("// n\n@k: {}i1{};\na", "{k:".repeat(depth), "}".repeat(depth)),
+        "metaneg" => format!("// n\n@k: {}a;\na", "-".repeat(depth)),
         // a deep term followed by a syntax error: the parser has to dispose of the partial tree
         "adderr" => format!("{} >* i1", vec!["i1"; depth + 1].join("+")),
         "negerr" => format!("{}a >* i1", "-".repeat(depth)),
@@ -80,7 +84,7 @@ fn run(construct: &str, depth: usize, op: &str) -> i32 {
         return 0;
     }
     if op == "parse-rule" {
-        let r = Rule::parse(&format!("// deep\n{text}"));
+        let r = Rule::parse(&if text.starts_with("// n\n@k") { text.clone() } else { format!("// deep\n{text}") });
         std::mem::forget(r);
         return 0;
     }
@@ -144,6 +148,18 @@ fn run(construct: &str, depth: usize, op: &str) -> i32 {
             let s = format!("{r:?}");
             std::mem::forget(s);
             std::mem::forget(r);
+        }
+        "drop-ruleset" => {
+            // a ruleset of 40 rules, one of them deep, dropped on this thread; then a moment for anything the drop may
+            // have handed to another thread
+            let mk = |n: String, e: Expr| Rule::new(n, std::collections::BTreeMap::new(), e);
+            let mut b = ruleset();
+            for i in 0..39 {
+                b = b.with_rule(mk(format!("small {i}"), Expr::value(i as i128))).expect("with_rule");
+            }
+            let rs = b.with_rule(mk("deep".into(), e)).expect("with_rule").build();
+            drop(rs);
+            std::thread::sleep(std::time::Duration::from_millis(150));
         }
         "evaluate-in-ruleset" => {
             // the tree as one rule of a ruleset assembled through both builder entry points, evaluated with the others
